@@ -179,10 +179,5 @@ theorem readKeys_nil (cfg : Cfg) (st : InSt) (h : InReady st) : readKeys cfg st 
   rw [List.append_nil, scan_of_none h.1]
   simp [feed_nil cfg _ h.2]
 
-theorem readKeys_append' (cfg : Cfg) (st : InSt) (a b : Bytes) :
-    readKeys cfg st (a ++ b) = readKeys cfg (readKeys cfg st a) b := by
-  unfold readKeys decode
-  rw [← List.append_assoc, scan_append']
-  simp [feed_append]
 
 end Ptk.C03.Utf8
